@@ -285,6 +285,19 @@ def monitor_prio(kind):
                     if undelivered > 0 and not v["held"] and v["olen"] == 0:
                         fails.append("op %d: %d written items undelivered, nothing in flight, yet the output is empty after settling" % (i, undelivered))
                         break
+                # a priority alone in having data, nothing of another priority in flight, itself within its share:
+                # the vacant handlers are its own without any release
+                for i, v in enumerate(view):
+                    if not v["settled"] or v["olen"] != 0 or len(v["held"]) >= H:
+                        continue
+                    got = {t["taken"][1] for t in view[:i + 1] if t["taken"]}
+                    waiting = {pp for x, pp in v["puts"].items() if x not in got}
+                    if len(waiting) == 1:
+                        pp = next(iter(waiting))
+                        if all(h == pp for h in v["held"]) and len(v["held"]) <= shares.get(pp, 0):
+                            fails.append("op %d: priority %d alone has data (%d items waiting), %d of %d handlers hold its items and nothing "
+                                         "else is in flight, yet nothing is offered after settling" % (i, pp, len(v["puts"]) - len(got), len(v["held"]), H))
+                            break
                 if m["style"] == "alone":
                     worst = max([len(v["held"]) + v["olen"] for v in view] + [0])
                     if worst != H:
